@@ -1,6 +1,6 @@
 (* C16 — numeric literals are read and printed exactly.  Theorems only; proofs are in Num/*.v *)
 From Coq Require Import ZArith NArith QArith List Ascii String Bool.
-From OsmtV.Num Require Import Chars Regex RegexProofs Gen_RealString Gen_LexNum LitModel LitProofs LexProofs RatPrint RatPrintProofs.
+From OsmtV.Num Require Import Chars Regex RegexProofs Gen_RealString Gen_LexNum Gen_Normalize LitModel LitProofs LexProofs RatPrint RatPrintProofs ConstProofs.
 Import ListNotations.
 Definition S (s : string) : str := list_ascii_of_string s.
 
@@ -90,6 +90,21 @@ Print Assumptions lex_num_refuted.
 Theorem print_parse_roundtrip : forall q : Q, read_num_term (term_print q) = Some q.
 Proof. exact print_parse_roundtrip_proof. Qed.
 Print Assumptions print_parse_roundtrip.
+
+(* The text get_str / %Qd produces for a canonical rational is read back by FastRational(text, 10)
+   to the same rational (the step between stringToRational's text and the number mkConst stores). *)
+Theorem get_str_parse_roundtrip : forall q : Q, Qred q = q -> fr_of_string (get_str q) = FRVal q.
+Proof. intros q Hq. apply fr_of_qd_str_proof; [assumption | reflexivity]. Qed.
+Print Assumptions get_str_parse_roundtrip.
+
+(* End of the chain for the front end: a TK_NUM / TK_DEC token, handed to ArithLogic::mkConst in a logic
+   with reals only, becomes a Real constant whose stored number is the (exact, by lex_num_exact /
+   lex_dec_exact) value of stringToRational, under its canonical name. *)
+Theorem token_mkconst_exact : forall s : str,
+  matches re_TK_NUM s = true \/ matches re_TK_DEC s = true ->
+  exists q, string_to_rational s = StrVal q /\ Qred q = q /\ mk_const LRA s = MReal (qd_str q) (FRVal q).
+Proof. intros s H. apply token_mkconst_exact_proof; [reflexivity | assumption]. Qed.
+Print Assumptions token_mkconst_exact.
 
 (* Int constants keep their spelling as identity: equal values, different terms; with UF in the logic
    mkEq folds them to false (DESIGN.md par.9 #12). *)
